@@ -9,6 +9,7 @@ import (
 
 type genParams struct {
 	MaxNodes, MaxDepth, MaxRoots, NChunks int
+	MinNodes                              int  // lower bound of the node budget (0: 1)
 	Hostile                               bool // names may contain '/', '.', leading blanks, bullets
 }
 
@@ -57,6 +58,9 @@ func randName(rng *rand.Rand, p genParams) []string {
 func randForest(rng *rand.Rand, p genParams) []*rtree {
 	nroots := 1 + rng.Intn(p.MaxRoots)
 	budget := 1 + rng.Intn(p.MaxNodes)
+	if p.MinNodes > 0 && p.MaxNodes >= p.MinNodes {
+		budget = p.MinNodes + rng.Intn(p.MaxNodes-p.MinNodes+1)
+	}
 	var roots []*rtree
 	namePool := [][]string{}
 	for i := 0; i < 6; i++ {
